@@ -42,7 +42,7 @@ def spelling(c):
 
 def case_id(c):
     if c['k'] == 'val':
-        return 'val/%s%s/%s' % (c['pos'], ('+' + c['ann']) if c['ann'] else '', spelling(c))
+        return 'val/%s%s/%s%s' % (c['pos'], ('+' + c['ann']) if c['ann'] else '', 'typedef:' if c.get('alias') else '', spelling(c))
     return 'arr/%s/%s' % (c['kind'], ','.join(c['roles']) or '-')
 
 
@@ -80,6 +80,10 @@ def run_batch(S, cases):
     for n, (cid, c) in enumerate(cases):
         if c['k'] == 'val':
             sp = spelling(c)
+            if c.get('alias'):
+                # the value is declared through a typedef of the namespace; the spelling is its target
+                syms.append(S.alias('FooAl%d' % n, sp, line=n + 10))
+                sp = 'FooAl%d' % n
             if c['pos'] == 'param':
                 ident = 'foo_v%d' % n
                 syms.append(S.function(ident, 'void', [(sp, 'x')], line=n + 10))
@@ -175,7 +179,12 @@ def project_val(c, node):
                     direction='', callerAlloc=False)
     a = holder.attrib if c['pos'] in ('param', 'return') else {}
     cb, cd, cq = parse_ctype(t.attrib.get(C('type')))
-    return dict(present=True, tag=t.tag.rpartition('}')[2], name=t.attrib.get('name', ''),
+    name = t.attrib.get('name', '')
+    if c.get('alias'):
+        # the per-case typedef name FooAl<n> / Al<n> is normalised to the spec's FooAlias / Alias
+        cb = re.sub(r'^FooAl\d+$', 'FooAlias', cb)
+        name = re.sub(r'^Al\d+$', 'Alias', name)
+    return dict(present=True, tag=t.tag.rpartition('}')[2], name=name,
                 elems=[e.attrib.get('name', '') for e in t if e.tag in (Q('type'), Q('array'))],
                 cbase=cb, cdepth=cd, cquals=cq, transfer=a.get('transfer-ownership', ''),
                 nullable=a.get('nullable') == '1',
@@ -211,11 +220,11 @@ def sample_vals(cases, rng, per_cell):
     seeded others; all annotated supplement cases"""
     cells = {}
     for c in cases:
-        cells.setdefault((c['base'], c['depth'], c['pos']), []).append(c)
+        cells.setdefault((c['base'], c['depth'], c['pos'], bool(c.get('alias'))), []).append(c)
     out = []
     for key in sorted(cells):
         lst = sorted(cells[key], key=lambda c: c['quals'])
-        keep = [c for c in lst if c['ann'] or set(c['quals']) <= {''} or set(c['quals']) == {'c'}
+        keep = [c for c in lst if c['ann'] or c.get('alias') or set(c['quals']) <= {''} or set(c['quals']) == {'c'}
                 or (c['base'] in ('void', 'char', 'gchar', '_Bool', 'bool', 'int', 'FooRec') and c['depth'] <= 1)]
         rest = [c for c in lst if c not in keep]
         keep += rng.sample(rest, min(per_cell, len(rest)))
@@ -256,7 +265,7 @@ def random_arrs(rng, n):
 def sig_of(clause, c):
     if c['k'] == 'val':
         return dict(clause=clause, pos=c['pos'], base=c['base'], ptr=c['depth'] > 0,
-                    quals=''.join(sorted(set(''.join(c['quals'])))), ann=c['ann'])
+                    quals=''.join(sorted(set(''.join(c['quals'])))), ann=c['ann'], typedef=bool(c.get('alias')))
     return dict(clause=clause, kind=c['kind'], roles=','.join(c['roles']))
 
 
@@ -366,7 +375,7 @@ def run():
     for o in obs:
         c = o['c']
         if c['k'] == 'val':
-            if c['depth'] > 0 or any(c['quals']) or o['o']['name'] != c['base']:
+            if c['depth'] > 0 or any(c['quals']) or c.get('alias') or o['o']['name'] != c['base']:
                 ck.nontrivial(o['id'])
         elif any(r in ('cb', 'as') for r in c['roles']):
             ck.nontrivial(o['id'])
